@@ -197,6 +197,9 @@ def tensor_as_memoryview(tensor: torch.Tensor) -> memoryview:
         # This is only needed if the caller didn't need to copy the tensor from
         # device to CPU. This is still more efficient than torch.save().
         tensor = tensor.contiguous()
+    if tensor.nelement() == 0:
+        # memoryview.cast() rejects views with zeros in shape
+        return memoryview(b"")
     if tensor.dtype == torch.bfloat16:
         return _tensor_as_memoryview_via_untyped_storage(tensor)
     return memoryview(tensor.numpy()).cast("b")
@@ -254,6 +257,9 @@ def tensor_from_memoryview(
     # PyTorch issues a warning if the given memoryview is non-writable. This is
     # not a concern for torchsnapshot, as tensors created from non-writable
     # buffers are all read-only, intermediate tensors.
+    if len(mv) == 0:
+        # torch.frombuffer() rejects empty buffers
+        return torch.reshape(torch.empty(0, dtype=dtype), shape)
     with warnings.catch_warnings():
         warnings.simplefilter("ignore")
         return torch.reshape(torch.frombuffer(mv, dtype=dtype), shape)
